@@ -1195,6 +1195,78 @@ def predicates_abort(sc, result):
     return fails
 
 
+def chain_items(m):
+    """ONE call interrupted at EVERY position, compared step by step (Corr/C17.v leading digit 14): the call shapes of
+    systematic_abort, each with all its positions (source lines 0..12; for the canonical shapes bytecodes 0, 2, .. 108)"""
+    A, B, N1 = ("o", 0), ("o", 1), ("n", 1)
+    items = []
+    for sel in (A, N1):
+        for loc in (False, True):
+            for setup in ((), (("set", 1, m, B, True),)):
+                for kind_ in ("set", "enter"):
+                    if kind_ == "set" and setup:
+                        continue
+                    items.append((m, setup, (kind_, 1, m, sel, loc), 1, tuple(range(ABORT_LINES))))
+    for loc in (False, True):
+        for exn in (False, True):
+            items.append((m, (("enter", 1, m, A, loc),), ("exit", 1, m, exn), 1, tuple(range(ABORT_LINES))))
+            items.append((m, (("set", 2, m, B, False), ("enter", 1, m, A, loc), ("set", 2, m, ("o", 2), False)), ("exit", 1, m, exn), 1,
+                          tuple(range(ABORT_LINES))))
+    canon = [((), ("set", 1, m, A, False)), ((), ("set", 1, m, N1, True)), ((), ("enter", 1, m, A, False)),
+             ((("set", 1, m, B, True),), ("enter", 1, m, N1, True)),
+             ((("enter", 1, m, A, False),), ("exit", 1, m, False)), ((("enter", 1, m, A, True),), ("exit", 1, m, True)),
+             ((("set", 2, m, B, False), ("enter", 1, m, A, False), ("set", 2, m, ("o", 2), False)), ("exit", 1, m, False))]
+    for setup, op in canon:
+        items.append((m, tuple(setup), op, 2, tuple(range(0, ABORT_OPCODES, 2))))
+    return items
+
+
+def encode_chain(item, results):
+    """digit stream decoded by Corr/C17.v `decode_c` (leading digit 14)"""
+    m, setup, op, kind, positions = item
+    M = Mgr.get(m)
+    if getattr(M, "_name_first", None) is None:
+        try:
+            M._name_first = int(name_first(M.cls))
+        except Exception:  # noqa
+            M._name_first = 0
+    ds = [14, m, 3, 1, M._name_first, len(setup)]
+    for o in setup:
+        ds += op_digits(o)
+    ds += op_digits(op) + [len(results)]
+    for (res, obs) in results:
+        ds += [OUTCOME.get(res, 3)] + aseen_digits(obs)
+    assert all(0 <= d < 64 for d in ds), ds
+    return ds
+
+
+def chain_to_json(item):
+    m, setup, op, kind, positions = item
+    return {"manager": m, "setup": hist_to_json(setup), "op": hist_to_json([op])[0], "kind": kind, "positions": list(positions)}
+
+
+def _chain_job(m, items):
+    Ms = Mgr.both()
+    out = []
+    for item in items:
+        _, setup, op, kind, positions = item
+        results = []
+        for k in positions:
+            for X in Ms:
+                X.reset()
+            r = drive_abort((m, setup, op, kind, k, ()))
+            results.append((r[0], r[1], r[3]))
+        # a position at which the tracer did not fire is no interruption: only the LAST such run (the call ran to completion)
+        # closes the chain; earlier ones (position 0 under bytecode tracing of some frames) are left out
+        fired = [(res, obs) for (res, obs, f) in results if f]
+        tail = [(res, obs) for (res, obs, f) in results[-1:] if not f]
+        out.append((pack(encode_chain(item, fired + tail)), None,
+                    [f"{'tenalg' if m else 'backend'}.step-by-step {op[0]} ({'line' if kind == 1 else 'bytecode'}): {len(fired)} of {len(positions)} positions inside the call"]))
+    for X in Ms:
+        X.reset()
+    return out, None
+
+
 def abort_to_json(sc):
     m, setup, op, kind, k, post = sc
     return {"manager": m, "setup": hist_to_json(setup), "op": hist_to_json([op])[0], "kind": kind, "line": k, "post": hist_to_json(post)}
@@ -3431,6 +3503,8 @@ def _pool_job(job):
         return _meta_job(mode - 16, histories)
     if mode in (18, 19):
         return _abort_job(mode - 18, histories)
+    if mode in (21, 22):
+        return _chain_job(mode - 21, histories)
     if mode in (8, 9):
         return _dispatch_job(mode - 8, histories)
     if mode >= 3 and mode != 7:
@@ -3551,6 +3625,8 @@ def make_groups(tier, rng):
         groups.append((12 + m, False, 3, [random_rhistory(rng, m, 12 if quick else 30) for _ in range(120 if quick else 1500)], "register-backend-method"))
         # calls that do not run to completion: interrupted at every source line (abort), raising by themselves (nameless instance)
         groups.append((18 + m, False, 3, systematic_abort(m) + [random_abort(rng, m) for _ in range(150 if quick else 3000)], "interrupted-and-raising-calls"))
+        # the same call shapes, each interrupted at EVERY position in turn: the observed states must form ONE growing execution
+        groups.append((21 + m, False, 3, chain_items(m), "interrupted-step-by-step"))
     return groups
 
 
@@ -3640,12 +3716,14 @@ def run(chk):
         meta.append(None)
     for g, res in zip(groups, results):
         mode, main_actor, nthreads, hs, tag = g
-        gname = {0: "backend:", 1: "tenalg:", 2: "both:", 3: "backend:", 4: "tenalg:", 7: "both:", 8: "backend:", 9: "tenalg:", 11: "both:", 12: "backend:", 13: "tenalg:", 14: "backend:", 15: "tenalg:", 16: "backend:", 17: "tenalg:", 18: "backend:", 19: "tenalg:"}[mode] + tag
+        gname = {0: "backend:", 1: "tenalg:", 2: "both:", 3: "backend:", 4: "tenalg:", 7: "both:", 8: "backend:", 9: "tenalg:", 11: "both:", 12: "backend:", 13: "tenalg:", 14: "backend:", 15: "tenalg:", 16: "backend:", 17: "tenalg:", 18: "backend:", 19: "tenalg:", 21: "backend:", 22: "tenalg:"}[mode] + tag
         for h, (lit, fail, outs) in zip(hs, res):
             cid = len(cases)
             cases.append(f"({cid}, {lit})")
             meta.append((mode, main_actor, nthreads, h, tag))
-            if mode in (18, 19):
+            if mode in (21, 22):
+                ops, nontrivial = list(h[1]) + [h[2]], True
+            elif mode in (18, 19):
                 ops = list(h[1]) + [h[2]] + list(h[5])
                 nontrivial = h[3] in (1, 2) or any(o[0] != "exit" and o[3] == NAMELESS for o in ops)
             elif mode in (16, 17):
@@ -3835,7 +3913,7 @@ def run(chk):
                        "0..12 of the call (all lines of set_backend / backend_context / current_backend / the cache look-up), each followed by 4 atomic operations; 6 histories "
                        "with the NAMELESS instance Backend() / TenalgBackend() (set / enter, both flavours, exit of a later non-local context); 150 (thorough 3000) random "
                        "scenarios of both kinds; after the call and after every follow-up EVERY thread reports get_backend() (or that it raises) and the identity of "
-                       "current_backend(); Coq: the state is that of SOME prefix of the call's acts (abort), resp. exactly exec_nl's. Non-trivial = at least two threads act and a context is entered; distinct key = (mode, "
+                       "current_backend(); Coq: the state is that of SOME prefix of the call's acts (abort), resp. exactly exec_nl's. STEP BY STEP: each of the 20 line-granular and 7 bytecode-granular call shapes is interrupted at EVERY position in turn (13 lines / 55 bytecode positions) and Coq checks that the observed states are those of ONE growing set of the call's acts (inclusion of the executed sets; stages: exit resumed inside the try block < interrupted inside the call < entry's finally clause ran < completed). Non-trivial = at least two threads act and a context is entered; distinct key = (mode, "
                        "main-thread role, history). At most 40 disagreeing cases per shard of 2500 are listed")
     for b in broken:
         chk.broken.append({"what": "correspondence corr:C17 shard not evaluated", "detail": b})
@@ -3857,6 +3935,11 @@ def run(chk):
                              {"manager": "tensorly.tenalg" if m else "tensorly.backend", "programs [set, enter, exit, exit-by-exception] x [global, local]": progs})
             continue
         mode, main_actor, nthreads, h, tag = meta[i]
+        if mode in (21, 22):
+            chk.disagreement("corr:C17 abort step by step (the states observed after interrupting ONE call at its successive positions are not "
+                             "those of one growing set of the call's acts: some position shows fewer acts executed than an earlier one, or no "
+                             "sub-sequence at all)", {"mode": mode, "scenario": chain_to_json(h)})
+            continue
         if mode in (18, 19):
             chk.disagreement("corr:C17 abort (Model/BackendAbort.v: the state after an interrupted call is that of no prefix of its acts, or a call that "
                              "raises by itself - nameless instance - leaves another state / outcome than exec_nl)",
